@@ -507,6 +507,19 @@ func TestC17(t *testing.T) {
 			ls = append(ls, k)
 		}
 		rec.Case(gc, labels["io:while-closed"]+labels["mgmt:outside-RW"]+labels["rest:not-advertised"] > 0 && labels["attach"] > 0, ls...)
+		if f != nil && labels["attach"] > 0 {
+			// A replica closes itself when a controller connection ends, and with attach
+			// steps in the program such a connection can end a moment later than the step
+			// that caused it (on a busy machine: during a later, unrelated step, whose
+			// before/after comparison then shows a state change it did not make). The
+			// steps themselves are sequential and deterministic: a finding is reported
+			// only if the same program produces it again.
+			f2, _, _, err2 := runGCase(gc)
+			if err2 == nil && (f2 == nil || f2.Sig != f.Sig) {
+				rec.Label("finding-not-reproduced-by-the-same-program:"+f.Sig, 1)
+				f = nil
+			}
+		}
 		if f != nil {
 			detail := f.Detail + "\ntrace:\n  " + strings.Join(tail(trace, 30), "\n  ")
 			if f.Has("C17") {
